@@ -511,3 +511,68 @@ def variants(world, tier="quick", only=None):
     if only:
         out = [v for v in out if any(o in v.name for o in only)]
     return out
+
+
+# ---- the is_<operator>() predicates ---------------------------------------------------
+PREDICATE_OPS = {"is_function_application": "FUNCTION", "is_select": "ARRAY_SELECT", "is_store": "ARRAY_STORE",
+                 "is_array_value": "ARRAY_VALUE", "is_algebraic_constant": "ALGEBRAIC_CONSTANT", "is_symbol": "SYMBOL"}
+PREDICATE_SETS = {"is_quantifier": ("FORALL", "EXISTS")}
+NOT_OPERATOR_PREDICATES = ("is_constant", "is_term", "is_literal", "is_true", "is_false", "is_one", "is_zero", "is_bool_op", "is_theory_op",
+                           "is_theory_relation", "is_ira_op", "is_lira_op", "is_bv_op", "is_array_op", "is_str_op", "is_bool_constant",
+                           "is_real_constant", "is_int_constant", "is_bv_constant", "is_string_constant")
+
+
+def operator_predicates(repo):
+    """-> [(method name, tuple of operator codes)] for the argument-less is_<operator>() methods of FNode"""
+    mi, ci = repo.find_class(FNODE)
+    byname = {n: k for k, n in enumerate(S.OPNAMES)} if isinstance(S.OPNAMES, (list, tuple)) else {n: k for k, n in S.OPNAMES.items()}
+    out = []
+    for name, fi in sorted(ci["methods"].items()):
+        if not name.startswith("is_") or name in NOT_OPERATOR_PREDICATES or len(fi.node.args.args) != 1:
+            continue
+        if name in PREDICATE_SETS:
+            out.append((name, tuple(byname[o] for o in PREDICATE_SETS[name])))
+            continue
+        opn = PREDICATE_OPS.get(name, name[3:].upper())
+        if opn in byname:
+            out.append((name, (byname[opn],)))
+    return out
+
+
+class PredicateVariant(Variant):
+    """is_<operator>() is true exactly for nodes of that operator (the operator is named by the method)"""
+    prop_ids = ("C04",)
+
+    def __init__(self, world, name, ops):
+        self.world, self.pname, self.ops = world, name, ops
+        self.qualname = FNODE + "." + name
+        self.name = "predicate:%s" % name
+
+    def setup(self, ex):
+        W = self.world
+        for q in [q for q in W.contracts if q.startswith(FNODE + ".")]:
+            del W.contracts[q]
+        self.K = z3.Const("node_type", I)
+        c = Obj("pysmt.fnode.FNodeContent", {"node_type": self.K, "args": (), "payload": None}, tag="content")
+        n = Obj(FNODE, {"_content": c, "_node_id": z3.Const("node_id", I)}, tag="node")
+        fi = W.repo.method(FNODE, self.pname)
+        return W.wrap_func(fi, fi.module, bound=n), [], {}
+
+    def check(self, ex, outcome):
+        kind, r = outcome
+        if kind == "raise":
+            return [("no-exception", z3.BoolVal(False))]
+        t = ex.truth(r)
+        t = t if is_z3(t) else z3.BoolVal(bool(t))
+        return [("true-exactly-for-its-operator", t == z3.Or([self.K == o for o in self.ops]))]
+
+
+_base_variants4 = variants
+
+
+def variants(world, tier="quick", only=None):
+    out = _base_variants4(world, tier, only)
+    extra = [PredicateVariant(world, n, ops) for n, ops in operator_predicates(world.repo)]
+    if only:
+        extra = [v for v in extra if any(o in v.name for o in only)]
+    return out + extra
